@@ -154,17 +154,25 @@ namespace {
       } else if (op == "shape") {
         rec = "{\"shape\":" + shape_json(chai->verif_stack_shape()) + "}";
       } else if (op == "locals") {
+        // get_locals() is an engine API: what it throws is an observation about the engine, not a harness failure
+        std::map<std::string, Boxed_Value> locals;
+        std::string threw;
+        try {
+          locals = chai->get_locals();
+        } catch (const std::exception &e) {
+          threw = e.what();
+        }
         rec = "{\"locals\":[";
         bool f2 = true;
         long nl = 0;
-        for (const auto &l : chai->get_locals()) {
+        for (const auto &l : locals) {
           rec += (f2 ? "" : ",") + jstr(l.first);
           f2 = false;
           if (traced) { sink_write("lv", l.first, 0, 0, 0, ""); }
           ++nl;
         }
         if (traced) { sink_write("lvend", "", nl, 0, 0, ""); }
-        rec += "]}";
+        rec += "]" + (threw.empty() ? std::string() : ",\"threw\":" + jstr(threw)) + "}";
       } else if (op == "get_state") {
         states[st.num("slot", 0)] = chai->get_state();
         rec = "{\"ok\":1}";
